@@ -138,7 +138,9 @@ ReplLine(c, requeued) == [k |-> "repl", c |-> c, requeued |-> requeued]
 ---------------------------------------------------------------------------
 \* choices: [kind, s, i, ev, f, agg, extra]; agg = amount of an aggregate delay pushed by this
 \* step (-1 none), extra = bottleneck delay added to the packet sent by this step
-Choice(kind, s, i, ev, f) == [kind |-> kind, s |-> s, i |-> i, ev |-> ev, f |-> f, agg |-> -1, extra |-> 0]
+\* rh: when buffered padding and normal packets tie for the head of the queue a replacing padding
+\* looks at, the heap's order among them is unspecified - rh says whether a normal one is on top
+Choice(kind, s, i, ev, f) == [kind |-> kind, s |-> s, i |-> i, ev |-> ev, f |-> f, agg |-> -1, extra |-> 0, rh |-> TRUE]
 NoEv == Ev(0, "-", -1, 0, FALSE, FALSE, FALSE)
 
 \* the events that can be processed next, as <<side, event>>; base heads are NormalSent with id 0
@@ -151,6 +153,26 @@ QueueCands(Z) == QueueCandsAt(Z, QT(Z))
 \* ties between the sides' expiries go to the server
 BlkSideAt(Z, bt) == IF 2 \in BlkCands(Z) /\ Z.sd[2].blk.until = bt THEN 2 ELSE 1
 BlkSide(Z) == BlkSideAt(Z, BT(Z))
+
+\* the buffered packets a replacing padding of side s may find on top (queue.rs peek_blocking):
+\* under bypassable blocking only the packets without the bypass flag are buffered; otherwise the
+\* heap of flagged packets is looked at as well and wins ties
+ReplHead(Z, s) ==
+  LET B  == {x \in Z.sd[s].q : x.e = "TunnelSent" /\ ~x.bp}
+      BB == {x \in Z.sd[s].q : x.e = "TunnelSent" /\ x.bp}
+      first(S) == {x \in S : \A y \in S : x.t <= y.t}
+  IN IF Z.sd[s].byp \/ BB = {} THEN first(B)
+     ELSE IF B = {} THEN first(BB)
+     ELSE IF (CHOOSE x \in first(BB) : TRUE).t <= (CHOOSE x \in first(B) : TRUE).t THEN first(BB) ELSE first(B)
+\* does the replacing padding e of side s find a normal packet on top of the buffered ones? (when
+\* padding and normal packets tie within the heap, rh says which is on top)
+ReplHit(Z0, s, e, rh) ==
+  LET head == ReplHead(Z0, s) IN
+  e.e = "PaddingSent" /\ e.rp /\ (\E x \in head : ~x.p) /\ (rh \/ \A x \in head : ~x.p)
+ReplTie(Z0, s, e) ==
+  LET head == ReplHead(Z0, s) IN
+  e.e = "PaddingSent" /\ e.rp /\ (\E x \in head : ~x.p) /\ (\E x \in head : x.p)
+
 
 \* blocking of side s expires at bt while a BlockingBegin of that side is still queued for that
 \* instant (blocking of zero length): that BlockingBegin is processed first (at bt, the blocking
@@ -171,7 +193,10 @@ ZChoices(Z, Oracle(_, _)) ==
                        x \in BeginsDue(Z, BlkSideAt(Z, P.bt), P.bt)}
          ELSE {Choice("blk", BlkSideAt(Z, P.bt), 0, NoEv, f) : f \in Oracle(Z, BlkSideAt(Z, P.bt))}
   ELSE IF PQueueNext(P) THEN
-         UNION {{Choice("queue", c[1], 0, c[2], f) : f \in Oracle(Z, c[1])} : c \in QueueCandsAt(Z, P.qt)}
+         UNION {{[Choice("queue", c[1], 0, c[2], f) EXCEPT !.rh = h] :
+                   f \in Oracle(Z, c[1]),
+                   h \in (IF ReplTie([Z EXCEPT !.sd[c[1]].q = @ \ {c[2]}], c[1], c[2]) THEN BOOLEAN ELSE {TRUE})} :
+                c \in QueueCandsAt(Z, P.qt)}
   ELSE IF PTimerNext(P) THEN
          {Choice("timer", c[1], c[2], NoEv, <<>>) : c \in {x \in TimCands(Z) : Z.sd[x[1]].tim[x[2]].due = P.it}}
   ELSE   {Choice("action", c[1], c[2], NoEv, <<>>) : c \in {x \in ActCands(Z) : Z.sd[x[1]].act[x[2]].due = P.st}}
@@ -233,10 +258,6 @@ AggPps(Z, s, t, extra) ==
   ELSE IF \E x \in TSof(Z, s) : SatSub(x.t, t) <= 100000 THEN -1
   ELSE IF BaseClose(Z, s, t, 1) THEN -1
   ELSE extra
-\* the buffered packets a replacing padding of side s may leave with (earliest first)
-ReplHead(Z, s) == LET cands == {x \in Z.sd[s].q : x.e = "TunnelSent" /\ (~x.bp \/ ~Z.sd[s].byp)}
-                  IN IF cands = {} THEN {} ELSE {x \in cands : \A y \in cands : x.t <= y.t}
-
 \* main loop body: event e picked on side s at time t, queues already updated in Z0
 \* the two pending entries of one push_aggregate_delay(B) at time T on side s
 Pushed(Z0, s, T, B) ==
@@ -246,7 +267,7 @@ Pushed(Z0, s, T, B) ==
      ELSE {[t |-> T + off(IF s = 1 THEN 4 ELSE 1), d |-> B, s |-> 1, id |-> Z0.nid + 30],
            [t |-> T + off(IF s = 1 THEN 3 ELSE 4), d |-> B, s |-> 2, id |-> Z0.nid + 31]}
 
-Process(Z0, s, e, t, f, agg, extra, aggFirst) ==
+Process(Z0, s, e, t, f, agg, extra, aggFirst, rh) ==
   LET other == Other(s)
       Sd0 == Z0.sd
       nid == Z0.nid
@@ -256,7 +277,7 @@ Process(Z0, s, e, t, f, agg, extra, aggFirst) ==
         CASE e.e = "NormalSent" ->
                [Sd0 EXCEPT ![s].q = @ \cup {Ev(nid, "TunnelSent", -1, t, FALSE, FALSE, FALSE)}]
           [] e.e = "PaddingSent" ->
-               IF e.rp /\ (\E x \in head : ~x.p)
+               IF ReplHit(Z0, s, e, rh)
                THEN LET h == CHOOSE x \in head : ~x.p IN
                     IF ~e.bp THEN Sd0
                     ELSE [Sd0 EXCEPT ![s].q = (@ \ {h}) \cup {[h EXCEPT !.bp = TRUE, !.rp = FALSE]}]
@@ -278,7 +299,7 @@ Process(Z0, s, e, t, f, agg, extra, aggFirst) ==
       lines == (IF aggFirst THEN aggl ELSE <<>>)
                \o <<EvLine(IsC(s), e.e, e.m, t, e.p, e.bp, e.rp)>>
                \o (IF aggFirst THEN <<>> ELSE aggl)
-               \o (IF e.e = "PaddingSent" /\ e.rp /\ (\E x \in head : ~x.p) THEN <<ReplLine(IsC(s), e.bp)>> ELSE <<>>)
+               \o (IF ReplHit(Z0, s, e, rh) THEN <<ReplLine(IsC(s), e.bp)>> ELSE <<>>)
                \o (IF e.e = "TunnelSent" THEN <<RecvLine(IsC(other), t + Z0.cf.delay + extra, e.p)>> ELSE <<>>)
                \o [j \in 1..used |-> ActLine(IsC(s), t, r.acc.acts[j][2], r.acc.acts[j][1])]
       \* stop test (no_normal_packets)
@@ -325,18 +346,18 @@ ZStep(Z, c) ==
          LET t == AtLeastNow(Z, BT(Z))
              Z0 == [Z EXCEPT !.sd[c.s].blk = [on |-> FALSE, until |-> 0]]
              agg == IF Predict(Z) THEN AggExpire(Z, c.s, t) ELSE c.agg
-         IN Process(Z0, c.s, Ev(0, "BlockingEnd", -1, t, FALSE, FALSE, FALSE), t, c.f, agg, 0, TRUE)
+         IN Process(Z0, c.s, Ev(0, "BlockingEnd", -1, t, FALSE, FALSE, FALSE), t, c.f, agg, 0, TRUE, TRUE)
     [] c.kind = "queue" ->
          LET t == QT(Z)
              Z0 == IF c.ev.id = 0 THEN [Z EXCEPT !.sd[c.s].base = Tail(@)]
                    ELSE [Z EXCEPT !.sd[c.s].q = @ \ {c.ev}]
              hd == ReplHead(Z0, c.s)
-             repl == c.ev.e = "PaddingSent" /\ c.ev.rp /\ c.ev.bp /\ (\E x \in hd : ~x.p)
+             repl == c.ev.bp /\ ReplHit(Z0, c.s, c.ev, c.rh)
              extra == IF ~Predict(Z) THEN c.extra
                       ELSE IF c.ev.e = "TunnelSent" THEN PpsExtra(Z0, c.s, t) ELSE 0
              agg == IF ~Predict(Z) THEN c.agg
                     ELSE IF repl THEN AggReplace(Z0, c.s, CHOOSE x \in hd : ~x.p, t)
                     ELSE IF c.ev.e = "TunnelSent" THEN AggPps(Z0, c.s, t, extra)
                     ELSE -1
-         IN Process(Z0, c.s, c.ev, t, c.f, agg, extra, FALSE)
+         IN Process(Z0, c.s, c.ev, t, c.f, agg, extra, FALSE, c.rh)
 =============================================================================
